@@ -129,6 +129,8 @@ class Interp:
         self.ptr_phi = None         # value for pointer-typed loop-header phis
         self.phi_vals = {}          # preset values for header phis
         self._lazy = 0
+        self._free_depth = 0
+        self.free_atoms = False     # values defined outside the interpreted region become symbolic inputs
         self.arg_mem = False        # treat memory behind pointer parameters like locals (read/write, symbolic)
 
     # ------------------------------------------------------------ memory
@@ -157,7 +159,30 @@ class Interp:
                     self._lazy += 1
                     self.step(fr, ins, None)
                     self._lazy -= 1
-            return fr.vals.get(op[1])
+            v = fr.vals.get(op[1])
+            if v is None and self.free_atoms and op[1] in fr.f.insts and fr.fid == 0:
+                # a value computed before the interpreted region (loop-invariant operand): interpret its definition
+                # as far as it is affine, over the memory it was loaded from, and keep the LINEAR part only - an
+                # xor with a constant made between the loops (Mantis' k1 ^ alpha) leaves "the key operand" as it is
+                ins = fr.f.insts[op[1]]
+                sh = shape(ins["type"])
+                if sh and self._free_depth < 24:
+                    if ins["op"] in ("xor", "and", "or", "shl", "lshr", "zext", "sext", "trunc", "bitcast", "load",
+                                     "insertelement", "extractelement", "shufflevector"):
+                        self._free_depth += 1
+                        try:
+                            self.step(fr, ins, None)
+                        except NotAffine:
+                            pass
+                        self._free_depth -= 1
+                        v = fr.vals.get(op[1])
+                        if v is not None and v[0] == "b":
+                            v = ("b", [None if b is None else (b[0], 0 if b[0] else b[1]) for b in v[1]])
+                            fr.vals[op[1]] = v
+                    if v is None or (v[0] == "b" and any(b is None for b in v[1])):
+                        v = ("b", [self.V.atom(("X", ins["id"], b)) for b in range(sh[0] * sh[1])])
+                        fr.vals[op[1]] = v
+            return v
         if k == "a":
             return fr.args[op[1]] if op[1] < len(fr.args) else None
         if k == "c":
@@ -781,6 +806,7 @@ def iter_eval(prog, f, header, path, names=None):
         return TOP
     I = Interp(prog, V, mem_default)
     I.arg_mem = True
+    I.free_atoms = True
     fr = Frame(f, [("p", ("arg", k), 0) for k in range(len(f.params))], 0)
     for k, p in enumerate(f.params):
         if not p["type"].endswith("*"):
